@@ -164,7 +164,10 @@ def gen_plan(seed: int, tier: str) -> dict:
     hist = [{"kind": r.choice(["state", "state", "key", "key_none", "config", "db", "all", "same"]), "state_num": r.choice([2, 3, 65535, r.randrange(65536)]),
              "key": bytes(r.randrange(256) for _ in range(32)).hex(), "config_num": r.choice([2, 8, 65535]), "gen": r.randrange(10**9)} for _ in range(r.choice([1, 1, 2, 3, 5]))]
     extra_alias, extra_rec = gen_record(r, 99)
-    return {"pairings": pairings, "change": change, "hist": hist, "hist_target": r.randrange(8), "extra": {"alias": extra_alias, "rec": extra_rec, "db": {"gen": r.randrange(10**9), "config_num": 3, "state_num": 5, "broadcast_key": None}},
+    # the application hands the controller a newer record for an accessory it already holds (re-pairing under the same alias:
+    # new controller keys, new address), or the same accessory under a second alias over another transport
+    reload_ = r.choice([None, None, "same_alias", "second_alias"])
+    return {"pairings": pairings, "change": change, "hist": hist, "reload": reload_, "hist_target": r.randrange(8), "extra": {"alias": extra_alias, "rec": extra_rec, "db": {"gen": r.randrange(10**9), "config_num": 3, "state_num": 5, "broadcast_key": None}},
             "path": r.choice(["/simfs/pairing.json", "/simfs/conf dir/homekit/pairings.json"]),
             "cache_garble": r.randrange(10**9), "ops": None, "points_per_op": 40 if tier == "quick" else 300, "pseed": r.randrange(10**9)}
 
@@ -303,12 +306,41 @@ def execute(plan: dict, ch: Chooser) -> dict:
         cache1 = CharacteristicCacheFile(cache_path)
         c1 = build(plan["pairings"], cache1)
         apply_dbs(c1, plan["pairings"])
+        handed_over = {sp["alias"]: sp["rec"] for sp in plan["pairings"]}
+        if plan.get("reload"):
+            sp0 = plan["pairings"][0]
+            rec2 = json.loads(json.dumps(sp0["rec"]))
+            rec2["iOSPairingId"] = "re-paired-" + rec2["iOSPairingId"][-5:]
+            rec2["iOSDeviceLTSK"] = "ab" * 32
+            alias2 = sp0["alias"]
+            if plan["reload"] == "second_alias":
+                alias2 = sp0["alias"] + " (thread)"
+                rec2["Connection"] = "CoAP" if sp0["rec"]["Connection"] != "CoAP" else "IP"
+                rec2.pop("AccessoryAddress", None)
+                rec2.pop("AccessoryIPs", None)
+                rec2["AccessoryIP"], rec2["AccessoryPort"] = "fd00::77", 5683
+            elif "AccessoryPort" in rec2:
+                rec2["AccessoryPort"] = 4712
+            try:
+                c1.load_pairing(alias2, json.loads(json.dumps(rec2)))
+            except BaseException as e:  # noqa: BLE001
+                ctx.violate("load-pairing-raises", type(e).__name__, f"load_pairing of a newer record ({plan['reload']}) raised {e!r}")
+                return
+            handed_over[alias2] = rec2
+            ctx.probe("record_reloaded_" + plan["reload"])
         try:
             c1.save_data(path)
         except BaseException as e:  # noqa: BLE001
             ctx.violate("save-raises", type(e).__name__, f"save_data raised {e!r}")
             return
         snap1 = _snapshot_pairings(c1)
+        ctx.obligations += 1
+        for alias_, rec_ in handed_over.items():
+            got_ = snap1.get(alias_)
+            if got_ is None or any(got_.get(k_) != v_ for k_, v_ in rec_.items()):
+                diff_ = [k_ for k_, v_ in rec_.items() if got_ is None or got_.get(k_) != v_]
+                ctx.violate("pairing-data-lost", "record-handed-over-not-the-one-saved", f"alias {alias_!r}: the record saved for it differs from the record last handed to load_pairing in {diff_[:4]} "
+                                                                                        f"(reload scenario {plan.get('reload')})")
         states1 = {sp["alias"]: _snapshot_state(c1.aliases[sp["alias"]]) for sp in plan["pairings"]}
         files1 = dict(fs.files)
         dirs1 = set(fs.dirs)
